@@ -62,3 +62,40 @@ claim(
     TB, "sibling-implementation cross-check: template comparison of conversion/ordering expressions, dominance of guards, must-precede",
     "DESIGN.md §2 C11",
 )
+claim(
+    "C20", "other",
+    "Variant-level round trip of the plugin FFI encoding, exhaustive over variants, decided on MIR: for every interpreter::Value "
+    "variant the encoder returns Err or an FfiValue variant whose decoder arm rebuilds the same variant, with scalar payloads passed "
+    "through unchanged and no payload field dropped; for the hand-written serde of Type, serializer (index, name) constants equal "
+    "the ordinal/name of the deserializer's identifier enum and each identifier arm constructs the same Type variant. Byte-level "
+    "behaviour of bincode is not decided.",
+    TB, "exhaustive enum-arm template extraction (symbolic return values per variant) and writer/reader table agreement",
+    "DESIGN.md §2 C20",
+)
+claim(
+    "C09", "other",
+    "Encode/decode agreement of the staging translation, decided on MIR: both translators match every Expr form explicitly; every "
+    "emitted combinator name is registered with the same arity; for every Expr form one emitted combinator's implementation rebuilds "
+    "that form; typed value→code conversion slices aggregates by running word offsets; all f64→literal formatting sites use the plain "
+    "`{}` template; invented names are gensyms. Output equality of staged and hand-expanded programs is not decided.",
+    TB, "writer/reader table agreement (string-constant dataflow), enum coverage, per-arm structural templates",
+    "DESIGN.md §2 C09",
+)
+claim(
+    "C10", "other",
+    "Structural necessary conditions for hygiene: every binder-introducing combinator emission is classified (fresh name vs. "
+    "source-named = capture site; all source-named today, known finding F20); names invented by the translation come only from the "
+    "counter-based gensym; the resolver's scope stack is manipulated only through balanced push/pop so local binders are never "
+    "forgotten around quotes/splices. Output invariance under renaming is not decided.",
+    TB, "value-must-flow-from (binder name provenance), who-may-write and balanced-pair rules over MIR paths",
+    "DESIGN.md §2 C10",
+)
+claim(
+    "C17", "other",
+    "Structural necessary conditions for module privacy: flattener arms that register module members also register their "
+    "visibility; each resolution route (alias chain, wildcard, qualified path) consults visibility_map and reports or filters; the "
+    "resolver's lexical scope stack is only touched by its own balanced push/pop (locals shadow imports). Unique resolution for "
+    "concrete module trees is not decided.",
+    TB, "per-arm field-access pairing, route coverage of the visibility lookup, who-may-write + balanced-pair path rule",
+    "DESIGN.md §2 C17",
+)
